@@ -174,8 +174,13 @@ func (w *world) submit(k int, o map[string]any) map[string]any {
 	e := map[string]any{"t": "submit", "req": k, "prompt": o["prompt"]}
 	var stops []string
 	if l, ok := o["stop"].([]any); ok {
-		for _, x := range l {
-			stops = append(stops, promptString(x))
+		for _, x := range l { // a stop is a list of byte values
+			bs, _ := x.([]any)
+			var sb strings.Builder
+			for _, b := range bs {
+				sb.WriteByte(byte(hx.Int(b)))
+			}
+			stops = append(stops, sb.String())
 		}
 	}
 	idx, seq, kind, err := w.srv.VerifSubmit(promptString(o["prompt"]), hx.Int(o["npred"]), int32(hx.Int(o["keep"])), stops)
